@@ -411,7 +411,7 @@ func rawParts(fr *evalFrame, v ssa.Value, depth int, out map[ssa.Value]bool, see
 
 func r04_9(c *Ctx, r *Report) {
 	const rule = "R04.9"
-	r.rule(rule, "Rounding carries cascade, up to the date. NewSolarFromJulianDay splits the fraction of the day into hour, minute and the rounded second (the three float-to-integer conversions the time arguments of NewSolar flow from) and builds its result from the normalised time: for raw parts hour 0..23, minute 0..59, second 0..60 (60 after rounding up) and for day numbers that fall in the middle of a month, on the last day of a 31-day month, of February and of the year, the evaluator follows the carries (NextDay supplied by the checker's calendar) and the moment built must be the civil date plus the day carry of hour*3600 + minute*60 + second seconds, at the remaining time — 23:59:60 on 31 January is 00:00:00 on 1 February, not a 32nd of January. The three parts are abstract inputs.")
+	r.rule(rule, "A day number with a fraction becomes the civil date and the time of day, rounded to the second, with the carries cascading up to the date. NewSolarFromJulianDay is followed by the evaluator from the number it is given (its float arithmetic and conversions are the checker's own arithmetic on the expression tree; function literals over captured variables and helpers handed pointers to locals are followed where their calls stand; NewSolar is a record, NextDay the checker's calendar) for a day in the middle of a month, the last day of a 31-day month, of February and of the year, every hour, minutes 0, 1, 30, 58, 59, seconds 0, 1, 30, 59 and a quarter or three quarters of a second more: the moment built is that time of day rounded to the nearest second on that civil date — 23:59:59.75 on 31 January is 00:00:00 on 1 February, not a 32nd of January. The date part is followed for the day numbers where the Julian and Gregorian century rules bite (the turn of February and of the year in every century year 100..9900, the ten days dropped in October 1582) and a regular spread, against the checker's own calendar; SolarUtil.GetJulianDay is followed back from those civil dates to the same day numbers.")
 	fn := c.Fn(r, rule, "calendar.NewSolarFromJulianDay")
 	if fn == nil {
 		return
@@ -431,59 +431,8 @@ func r04_9(c *Ctx, r *Report) {
 		r.bad(rule, construct, c.fnPos(fn), "no call of NewSolar found (undecided = fail)")
 		return
 	}
-	top := &evalFrame{fn: fn}
-	// the float-to-integer conversions the three time arguments flow from (through carries, merges and
-	// inlined helpers), ordered by what each is computed from: the hour from the fraction, the minute
-	// from what the hour left, the second from what the minute left
-	set := map[ssa.Value]bool{}
-	for _, cl := range calls {
-		for i := 0; i < 3; i++ {
-			rawParts(top, cl.Common().Args[3+i], 0, set, map[ssa.Value]bool{})
-		}
-	}
-	var convs []ssa.Value
-	for v := range set {
-		if _, isConv := v.(*ssa.Convert); !isConv {
-			r.bad(rule, construct, c.pos(call.Pos()), "a time argument does not flow from float-to-integer conversions and integer carries only (undecided = fail)")
-			return
-		}
-		convs = append(convs, v)
-	}
-	if len(convs) != 3 {
-		r.bad(rule, construct, c.pos(call.Pos()), fmt.Sprintf("the time arguments flow from %d float-to-integer conversions, expected hour, minute and second (undecided = fail)", len(convs)))
-		return
-	}
-	inside := func(v ssa.Value) int {
-		n := 0
-		seen := map[ssa.Value]bool{}
-		var walk func(x ssa.Value, depth int)
-		walk = func(x ssa.Value, depth int) {
-			if x == nil || depth > 40 || seen[x] {
-				return
-			}
-			seen[x] = true
-			if x != v && set[x] {
-				n++
-			}
-			if ins, ok := x.(ssa.Instruction); ok {
-				for _, op := range ins.Operands(nil) {
-					if *op != nil {
-						walk(*op, depth+1)
-					}
-				}
-			}
-		}
-		walk(v, 0)
-		return n
-	}
-	sort.Slice(convs, func(i, j int) bool { return inside(convs[i]) < inside(convs[j]) })
-	if inside(convs[0]) != 0 || inside(convs[1]) != 1 || inside(convs[2]) != 2 {
-		r.bad(rule, construct, c.pos(call.Pos()), "the three conversions are not computed one from the remainder of the other (undecided = fail)")
-		return
-	}
-	parts := [3]ssa.Value{convs[0], convs[1], convs[2]}
 	civil := func(y, m, d int64) time.Time { return time.Date(int(y), time.Month(m), int(d), 0, 0, 0, 0, time.UTC) }
-	runCase := func(jd float64, h, m, s int64) (absSolar, string) {
+	runCase := func(jd float64) (absSolar, string) {
 		var leaf leafX
 		asSolar := func(fr *evalFrame, v ssa.Value) (absSolar, bool) {
 			o, ok := evalWith(fr, v, leaf)
@@ -491,16 +440,8 @@ func r04_9(c *Ctx, r *Report) {
 			return sol, ok && isS
 		}
 		leaf = func(fr *evalFrame, v ssa.Value) (interface{}, bool) {
-			switch v {
-			case parts[0]:
-				return h, true
-			case parts[1]:
-				return m, true
-			case parts[2]:
-				return s, true
-			}
 			if fr.parent == nil && len(fn.Params) == 1 && v == ssa.Value(fn.Params[0]) {
-				return jd, true // the day number fixes the date; the fraction is not used: the three parts are abstract
+				return jd, true
 			}
 			if rc, f, ok := getterField(c, v); ok && strings.HasPrefix(f, "Solar.") {
 				if sol, ok := asSolar(fr, rc); ok {
@@ -565,35 +506,82 @@ func r04_9(c *Ctx, r *Report) {
 	}
 	var bad []string
 	n := 0
-	// day numbers (at 06:00) of a day in the middle of a month, the last day of a 31-day month, of February, of the year
+	// a day in the middle of a month, the last day of a 31-day month, of February, of the year
 	for _, date := range [][3]int64{{2023, 2, 24}, {2023, 1, 31}, {2023, 2, 28}, {2023, 12, 31}} {
-		jd := float64(civil(date[0], date[1], date[2]).Unix())/86400 + 2440587.5 + 0.25
-		base, msg := runCase(jd, 0, 0, 0)
-		if msg != "" {
-			bad = append(bad, msg)
-			break
-		}
-		if base.y != date[0] || base.m != date[1] || base.d != date[2] {
-			bad = append(bad, fmt.Sprintf("day number %.2f is read as %d-%d-%d, the checker's calendar says %d-%d-%d", jd, base.y, base.m, base.d, date[0], date[1], date[2]))
-			break
-		}
+		midnight := float64(civil(date[0], date[1], date[2]).Unix())/86400 + 2440587.5
 		for h := int64(0); h < 24 && len(bad) < 4; h++ {
 			for _, m := range []int64{0, 1, 30, 58, 59} {
-				for _, s := range []int64{0, 1, 30, 59, 60} {
-					got, msg := runCase(jd, h, m, s)
-					n++
-					total := h*3600 + m*60 + s
-					t := civil(date[0], date[1], date[2]).AddDate(0, 0, int(total/86400))
-					want := absSolar{int64(t.Year()), int64(t.Month()), int64(t.Day()), total % 86400 / 3600, total % 3600 / 60, total % 60}
-					if msg != "" {
-						bad = append(bad, msg)
-					} else if got != want {
-						bad = append(bad, fmt.Sprintf("%d-%02d-%02d raw %02d:%02d:%02d becomes %d-%02d-%02d %02d:%02d:%02d, expected %d-%02d-%02d %02d:%02d:%02d", date[0], date[1], date[2], h, m, s, got.y, got.m, got.d, got.h, got.mi, got.s, want.y, want.m, want.d, want.h, want.mi, want.s))
+				for _, s := range []int64{0, 1, 30, 59} {
+					for _, frac := range []float64{0.25, 0.75} {
+						total := h*3600 + m*60 + s
+						got, msg := runCase(midnight + (float64(total)+frac)/86400)
+						n++
+						rounded := total
+						if frac > 0.5 {
+							rounded++
+						}
+						t := civil(date[0], date[1], date[2]).AddDate(0, 0, int(rounded/86400))
+						want := absSolar{int64(t.Year()), int64(t.Month()), int64(t.Day()), rounded % 86400 / 3600, rounded % 3600 / 60, rounded % 60}
+						if msg != "" {
+							bad = append(bad, msg)
+						} else if got != want {
+							bad = append(bad, fmt.Sprintf("%d-%02d-%02d %02d:%02d:%02d and %.2f s becomes %d-%02d-%02d %02d:%02d:%02d, expected %d-%02d-%02d %02d:%02d:%02d", date[0], date[1], date[2], h, m, s, frac, got.y, got.m, got.d, got.h, got.mi, got.s, want.y, want.m, want.d, want.h, want.mi, want.s))
+						}
 					}
 				}
 			}
 		}
 	}
+	// the date part on the days where the two calendars and their century rules bite: the turn of February in every
+	// century year, the turn of the year next to it, the ten days dropped in 1582, and a regular spread
+	m2 := 0
+	var bad2 []string
+	var dayNos []int64
+	for y := int64(100); y <= 9900; y += 100 {
+		mar1 := civilDayNo(y, 3, 1)
+		dayNos = append(dayNos, mar1-2, mar1-1, mar1, civilDayNo(y, 1, 1)-1, civilDayNo(y, 1, 1))
+	}
+	dayNos = append(dayNos, civilDayNo(1582, 10, 4)-1, civilDayNo(1582, 10, 4), civilDayNo(1582, 10, 15), civilDayNo(1582, 10, 15)+1, civilDayNo(1, 1, 1), civilDayNo(9999, 12, 31))
+	for k := civilDayNo(1, 1, 1); k < civilDayNo(9999, 12, 31); k += 9973 {
+		dayNos = append(dayNos, k)
+	}
+	for _, k := range dayNos {
+		if len(bad2) >= 4 {
+			break
+		}
+		got, msg := runCase(float64(k) - 0.25) // 06:00:00 on that day
+		m2++
+		y, mo, d := civilDateOf(k)
+		want := absSolar{y, mo, d, 6, 0, 0}
+		if msg != "" {
+			bad2 = append(bad2, msg)
+		} else if got != want {
+			bad2 = append(bad2, fmt.Sprintf("day number %d at 06:00 becomes %d-%02d-%02d %02d:%02d:%02d, the checker's calendar says %d-%02d-%02d 06:00:00", k, got.y, got.m, got.d, got.h, got.mi, got.s, y, mo, d))
+		}
+	}
+	sort.Strings(bad2)
+	r.check(len(bad2) == 0 && m2 == len(dayNos), rule, "calendar.NewSolarFromJulianDay reads a day number as the civil date of the checker's calendar", c.pos(call.Pos()), fmt.Sprintf("%d day numbers (the turn of February and of the year in every century year 100..9900, October 1582, a spread of one day in 9973); deviations: %v", m2, headList(dedupe(bad2), 3)))
+	// and back: the day number of those civil dates
+	if g := c.Fn(r, rule, "SolarUtil.GetJulianDay"); g != nil && len(g.Params) == 6 {
+		var bad3 []string
+		m3 := 0
+		for _, k := range dayNos {
+			if len(bad3) >= 4 {
+				break
+			}
+			y, mo, d := civilDateOf(k)
+			ev := &evaluator{inline: inlineLibrary, leaf: intParamsLeaf(g, []int64{y, mo, d, 6, 0, 0}, nil)}
+			res, outcome := ev.run(g, nil, nil, nil, nil)
+			m3++
+			if outcome != "return" || len(res) != 1 {
+				bad3 = append(bad3, "not followed: "+outcome+" "+ev.fail)
+			} else if res[0] != interface{}(float64(k)-0.25) {
+				bad3 = append(bad3, fmt.Sprintf("%d-%02d-%02d 06:00:00 has day number %v, the checker's calendar says %.2f", y, mo, d, res[0], float64(k)-0.25))
+			}
+		}
+		sort.Strings(bad3)
+		r.check(len(bad3) == 0 && m3 == len(dayNos), rule, "SolarUtil.GetJulianDay gives a civil date the day number of the checker's calendar", c.fnPos(g), fmt.Sprintf("%d dates (the same day numbers, back); deviations: %v", m3, headList(dedupe(bad3), 3)))
+	}
 	sort.Strings(bad)
-	r.check(len(bad) == 0 && n == 2400, rule, construct, c.pos(call.Pos()), fmt.Sprintf("%d (date, raw hour, minute, second) cases followed; deviations: %v", n, headList(dedupe(bad), 3)))
+	r.check(len(bad) == 0 && n == 3840, rule, construct, c.pos(call.Pos()), fmt.Sprintf("%d (date, time of day, fraction of a second) cases followed; deviations: %v", n, headList(dedupe(bad), 3)))
 }
